@@ -318,14 +318,15 @@ def asm_not_pure(chk, I, rule, files, floor):
       stores that build the operand could be dropped or reordered past it), and one that writes memory may be neither `nomem` nor
       `readonly`."""
     import re
+    from ..interp import Interp
     n = 0
     for f in I.facts['fns']:
         loc = f.get('loc') or ''
-        if not any(loc.startswith(x) or ('/' + x) in loc for x in files):
-            continue
+        listed = any(loc.startswith(x) or ('/' + x) in loc for x in files)
         for b in f['blocks']:
             t = b['t']
-            if t and t['k'] == 'asm':
+            # wherever the code lives: every block the property's own interpretations executed (`files` only documents where they are today)
+            if t and t['k'] == 'asm' and (f['name'], t['loc']) in Interp.ASM_TOUCHED:
                 n += 1
                 chk.ob(rule, '%s: asm block is not `pure`' % f['name'], 'PURE' not in t['opts'], 'options %s' % t['opts'], t['loc'], nontrivial=False)
                 tpl = ''.join((p.get('s') if p.get('s') is not None else '{%s}' % p.get('op')) for p in t['tpl'])
@@ -342,6 +343,22 @@ def asm_not_pure(chk, I, rule, files, floor):
                            not bad, 'options %s forbid the access the instruction makes' % t['opts'], t['loc'])
     chk.floor('%s: asm blocks scanned for `pure`' % rule, n, floor)
     return n
+
+
+def refutes_canonical(I, o, v):
+    """does the path condition of outcome `o` contradict "the 64-bit value v is a canonical address" (bits 48..63 equal bit 47)?
+    Either assuming canonicity kills the state (the path tested `sign_extend(v) != v`), or the path is the `otherwise` arm of a switch
+    on `v >> 47` whose arms took 0 and 0x1ffff."""
+    from ..bits import eq_bit
+    v = I.norm(o.st, v)
+    s = o.st.clone()
+    if not I.assume(s, eq_bit(tuple(v.bits[48:64]), (v.bits[47],) * 16), 1) or s.dead:
+        return True
+    d = BV(64, list(v.bits[47:64]) + [0] * 47)
+    for k, taken in o.st.facts.items():
+        if isinstance(k, tuple) and len(k) == 2 and k[0] == 'swnot' and k[1] == d.key() and {0, 0x1ffff} <= set(taken):
+            return True
+    return False
 
 
 def entry_pred_is_all_zero(I, pred):
